@@ -50,4 +50,59 @@ theorem sq_eq (f : M4) :
   unfold vsum vmul vlsum freqSqSum
   simp only [List.foldl, vadd, vzero, axis0_eq, axis1_eq]; ring
 
+/-! ### `_expand`: the `redundants` dict built from `self.duplicated` is the flat list of (alias, duplicate) pairs, swapped -/
+
+theorem dset_fold (k : Nat) : ∀ (rs : List Nat) (red : List (Nat × Nat)), (∀ r ∈ rs, ∀ e ∈ red, e.1 ≠ r) → rs.Nodup →
+    rs.foldl (fun red r => pyDictSet red r k) red = red ++ rs.map (fun r => (r, k)) := by
+  intro rs
+  induction rs with
+  | nil => intro red _ _; simp
+  | cons r rs ih =>
+    intro red hdis hnd
+    have h1 : pyDictSet red r k = red ++ [(r, k)] := by
+      unfold pyDictSet
+      have : red.any (fun e => e.1 == r) = false := by
+        rw [List.any_eq_false]
+        intro e he
+        simpa using hdis r (by simp) e he
+      simp [this]
+    rw [List.foldl_cons, h1, ih]
+    · simp
+    · intro r' hr' e he
+      rcases List.mem_append.mp he with he | he
+      · exact hdis r' (by simp [hr']) e he
+      · simp at he; subst he
+        simp
+        intro h; subst h
+        exact (List.nodup_cons.mp hnd).1 hr'
+    · exact (List.nodup_cons.mp hnd).2
+
+def flatPairs (dup : List (Nat × List Nat)) : List (Nat × Nat) := dup.flatMap fun kv => kv.2.map fun r => (kv.1, r)
+
+theorem redundants_fold : ∀ (dup : List (Nat × List Nat)) (red : List (Nat × Nat)),
+    (dup.flatMap (·.2)).Nodup → (∀ r ∈ dup.flatMap (·.2), ∀ e ∈ red, e.1 ≠ r) →
+    dup.foldl (fun red kv => (kv.2).foldl (fun red r => pyDictSet red r kv.1) red) red =
+      red ++ (flatPairs dup).map (fun p => (p.2, p.1)) := by
+  intro dup
+  induction dup with
+  | nil => intro red _ _; simp [flatPairs]
+  | cons kv dup ih =>
+    intro red hnd hdis
+    simp only [List.flatMap_cons] at hnd hdis
+    obtain ⟨hn1, hn2, hn3⟩ := List.nodup_append.mp hnd
+    rw [List.foldl_cons, dset_fold kv.1 kv.2 red (fun r hr => hdis r (List.mem_append_left _ hr)) hn1, ih _ hn2]
+    · simp [flatPairs, List.map_map, Function.comp_def]
+    · intro r hr e he
+      rcases List.mem_append.mp he with he | he
+      · exact hdis r (List.mem_append_right _ hr) e he
+      · simp at he
+        obtain ⟨a, ha, rfl⟩ := he
+        exact hn3 a ha r hr
+
+theorem expand_flat (n : Nat) (st : RunState) : expand n st = st.duped.foldl (expandOne n) st.dists := by
+  unfold expand
+  cases h : st.duped with
+  | nil => simp
+  | cons a l => simp
+
 end CogentModel.Distance
